@@ -47,7 +47,7 @@ def _impl_dec(n):
     from aioswitcher.schedule.tools import bit_summary_to_days
     D = _days()
     try:
-        r = bit_summary_to_days(n)
+        r = bit_summary_to_days(sum_weekdays_bit=n) if (n % 3 == 0) else bit_summary_to_days(n)      # every third mask by keyword
         assert isinstance(r, set)
         shown = "ok " + _csv(sorted(D.index(d) for d in r))
         # the caller owns the set it was given: whatever it does with it must not show in a later answer
